@@ -59,6 +59,9 @@ func (g *gen) Generate(typs []types.Type) error {
 	if !ok {
 		return fmt.Errorf("%s, the first argument, %s, is not of type slice", g.GetFuncName(typ), typ)
 	}
+	if !types.Comparable(sliceType.Elem()) {
+		return fmt.Errorf("%s, the elements of the first argument, %s, can not be used as keys of a map", g.GetFuncName(typ), g.TypeString(typ))
+	}
 	return g.genFuncFor(sliceType)
 }
 
